@@ -1,9 +1,11 @@
 import Fx.RtDriver
+import Fx.FrontDriver
 open Fx
 
 def handle (line : String) : String :=
   match line.trimAscii.toString.splitOn " " |>.filter (· ≠ "") with
   | "rt" :: rest => rtRequest rest
+  | "ast" :: rest => frontRequest rest
   | _ => "bad-op"
 
 partial def loop (h : IO.FS.Stream) (out : IO.FS.Stream) : IO Unit := do
